@@ -48,7 +48,27 @@ def conditions(F, nid, include_noret=False):
         truth = (k == 0)
         val = (truth if at else (not truth)) != flip
         out.append((lab, val, a))
+        # a short-circuit condition evaluated as data (e.g. inside __builtin_expect): its other operands govern too;
+        # their polarity on this edge is not tracked (None)
+        for leaf in _operands(F, A.tc):
+            if F.strip(leaf) != F.strip(aj):
+                l2, _f2 = canon.cond(F, leaf)
+                out.append((l2, None, a))
     return out
+
+
+def _operands(F, i):
+    """Leaf conditions of a (possibly negated / __builtin_expect-wrapped) &&/|| tree."""
+    i = F.strip(i)
+    nd = F.nodes[i]
+    k = nd.get("k")
+    if k == "un" and nd["op"] == "!":
+        return _operands(F, nd["e"])
+    if k == "call" and nd.get("fn") in ("__builtin_expect", "ABTU_likely", "ABTU_unlikely") and nd.get("a"):
+        return _operands(F, nd["a"][0])
+    if k == "bin" and nd["op"] in ("&&", "||"):
+        return _operands(F, nd["lh"]) + _operands(F, nd["rh"])
+    return [i]
 
 
 # ---------------------------------------------------------------------------
